@@ -597,10 +597,14 @@ func (f *lambdaCallable) wrapVariadicArgs(argv []reflect.Value) []reflect.Value 
 	}
 
 	n := len(argv) - paramCount + 1
-	vars := reflect.MakeSlice(typeInterfaceSlice, n, n)
+	vars := reflect.MakeSlice(typeInterfaceSlice, 0, n)
 
 	for i := 0; i < n; i++ {
-		vars.Index(i).Set(argv[paramCount-1+i])
+		// A missing argument has no value to store: like
+		// an array constructor, leave it out.
+		if arg := argv[paramCount-1+i]; arg.IsValid() {
+			vars = reflect.Append(vars, arg)
+		}
 	}
 
 	return append(argv[:paramCount-1], vars)
